@@ -241,47 +241,9 @@ func DomConds(b *ssa.BasicBlock) []CondFact {
 	compat := map[*ssa.BasicBlock]map[int]bool{} // merge block -> indices of compatible predecessors
 	restrict := func(iff *ssa.If, taken bool) bool {
 		// taken: the true edge of iff was followed
-		var phi *ssa.Phi
-		var want func(e ssa.Value, pred *ssa.BasicBlock) int // 1 compatible, 0 not, 2 unknown
-		if nv, trueMeansNil, isNil := NilCheck(iff.Cond); isNil {
-			p, isPhi := nv.(*ssa.Phi)
-			if !isPhi || !IsExpansionTemp(p) {
-				return false
-			}
-			phi = p
-			wantNil := taken == trueMeansNil
-			want = func(e ssa.Value, pred *ssa.BasicBlock) int {
-				switch nilness(e, pred) {
-				case 1:
-					if wantNil {
-						return 1
-					}
-					return 0
-				case 2:
-					if wantNil {
-						return 0
-					}
-					return 1
-				}
-				return 2
-			}
-		} else {
-			v, neg := BoolCond(iff.Cond)
-			p, isPhi := v.(*ssa.Phi)
-			if !isPhi || !IsExpansionTemp(p) {
-				return false
-			}
-			phi = p
-			wantTrue := taken != neg
-			want = func(e ssa.Value, pred *ssa.BasicBlock) int {
-				if cst, isC := e.(*ssa.Const); isC && cst.Value != nil {
-					if (cst.Value.String() == "true") == wantTrue {
-						return 1
-					}
-					return 0
-				}
-				return 2
-			}
+		phi, eval, isTest := PhiTest(iff.Cond)
+		if !isTest || !IsExpansionTemp(phi) {
+			return false
 		}
 		q := phi.Block()
 		if !q.Dominates(iff.Block()) {
@@ -299,7 +261,10 @@ func DomConds(b *ssa.BasicBlock) []CondFact {
 			compat[q] = set
 		}
 		for i, e := range phi.Edges {
-			if set[i] && want(e, q.Preds[i]) == 0 {
+			if !set[i] {
+				continue
+			}
+			if val, known := eval(e, q.Preds[i]); known && val != taken {
 				delete(set, i)
 			}
 		}
